@@ -19,13 +19,13 @@ func VerifC03_a5_coll_result() {
 	case 1:
 		res.Labels = []string{}
 	case 2:
-		res.Labels = []string{nondetStringUpTo("l0", 1)}
+		res.Labels = []string{nondetStringUpTo("l0", deep(1))}
 	}
 	switch wk {
 	case 1:
 		res.Weights = map[string]int{}
 	case 2:
-		res.Weights = map[string]int{nondetStringUpTo("wk", 1): nondetInt("wv")}
+		res.Weights = map[string]int{nondetStringUpTo("wk", deep(1)): nondetInt("wv")}
 	}
 	c := client.NewClient("http", "example.com", nil, nil, nil, false)
 	p := &svc.CollPayload{}
